@@ -99,8 +99,43 @@ theorem progE_nil (kind : Kind) (p : Pkt) (c : Pid) : ProgE kind p (.outs []) c 
     exact ⟨by simp [program, validOuts], by simp [introS, cellsOf], by simp [introS, cellsOf], Nat.le_refl _⟩
   | manyToOne _ => exact ⟨by simp [program], by simp [introS, cellsOf], by simp [introS, cellsOf], Nat.le_refl _⟩
 
+/-- a node kind with ONE out port: whatever list of packets the action's result is, the program is `Link; Write` of
+the single packet `[q]`, or the echo `Write(nil, in)` -/
+theorem prog_single (kind : Kind) (hk : kind = .oneToOne ∨ ∃ m, kind = .manyToOne m) (p : Pkt) (c nx : Pid)
+    (qs : List (Option Pkt)) (a1 : ((cellsOf qs).map (·.id)).Nodup)
+    (a2 : ∀ id ∈ (cellsOf qs).map (·.id), c ≤ id ∧ id < nx) (a3 : c ≤ nx) (hpc : p.id < c) :
+    ProgOK kind p (.outs qs) c nx ∨ ProgE kind p (.outs qs) c nx := by
+  have echo : ∀ qs' : List (Option Pkt), qs' = qs → program kind p (.outs qs') = some [.write none p] →
+      ProgOK kind p (.outs qs) c nx ∨ ProgE kind p (.outs qs) c nx := by
+    intro qs' e hp
+    subst e
+    exact Or.inr ⟨hp, by simpa [introS] using a1, by simpa [introS] using a2, a3⟩
+  match qs, a1, a2, echo with
+  | [some q], a1, a2, _ =>
+    left
+    have hq : c ≤ q.id := (a2 q.id (by simp [cellsOf])).1
+    have hne : ¬ p.id = q.id := fun e => by rw [e] at hpc; exact Nat.lt_irrefl _ (Nat.lt_of_lt_of_le hpc hq)
+    refine ⟨[.link p.id q.id, .write (some (outW 0)) q], ?_, by simp [linkTargets, hne],
+      by simpa [introS] using a1, by simpa [introS] using a2, a3⟩
+    rcases hk with e | ⟨m, e⟩ <;> subst e <;> rfl
+  | [], _, _, echo => exact echo [] rfl (by rcases hk with e | ⟨m, e⟩ <;> subst e <;> rfl)
+  | none :: qs', _, _, echo => exact echo _ rfl (by rcases hk with e | ⟨m, e⟩ <;> subst e <;> rfl)
+  | some q :: x :: qs', _, _, echo => exact echo _ rfl (by rcases hk with e | ⟨m, e⟩ <;> subst e <;> rfl)
+
+/-- every result shape of every node kind: new packets on some out ports / nothing -/
+theorem prog_any (kind : Kind) (p : Pkt) (c : Pid) (vs : List (Option Val)) (hpc : p.id < c) :
+    ProgOK kind p (.outs (allocOuts vs c).1) c (allocOuts vs c).2 ∨
+    ProgE kind p (.outs (allocOuts vs c).1) c (allocOuts vs c).2 := by
+  obtain ⟨a1, a2, a3⟩ := allocOuts_ids vs c
+  cases kind with
+  | oneToMany k => exact prog_many4 k p c vs hpc
+  | oneToOne => exact prog_single .oneToOne (Or.inl rfl) p c _ _ a1 a2 a3 hpc
+  | manyToOne m => exact prog_single (.manyToOne m) (Or.inr ⟨m, rfl⟩) p c _ _ a1 a2 a3 hpc
+
+/-- the action running in a node returns – ANY result the node code permits: a new packet, the in packet itself
+(handed on as a copy), an error packet, new packets / the in packet on several out ports, nothing -/
 theorem HIe_release (kinds : List Kind) (links : List (Nat × List Tgt)) (hwf : GraphWF5 kinds links) (g g' : G) (n : Nat)
-    (r : Flow.Rel) (hr : ExtT7 kinds (.release n r)) (h : HIe kinds links g) (hs : release g n r = some g') :
+    (r : Flow.Rel) (h : HIe kinds links g) (hs : release g n r = some g') :
     HIe kinds links g' := by
   obtain ⟨aa, h⟩ := h
   have h0 : HI kinds links aa D0 (clearObs g) := HI_congr kinds links aa D0 g _ h rfl rfl rfl rfl rfl rfl rfl rfl rfl
@@ -117,14 +152,10 @@ theorem HIe_release (kinds : List Kind) (links : List (Nat × List Tgt)) (hwf : 
       rw [Nat.zero_add] at ei
       subst ei
       simp only [hat] at hs
-      have hk := h0.kindEq n nd hn
       have hX : (⟨p.id, i, .cells []⟩ : Req) ∈ (aa n).reqs := by
         have := (h0.jb n nd hn).j.th i _ hg; simpa [ThOK] using this
       have hplt : p.id < (clearObs g).next :=
         (h0.jb n nd hn).bnd p.id (List.mem_append_left _ (mem_ids_of_mem hX (by simp [idsR])))
-      have tailS : ∀ (o : Outcome), relTail (clearObs g) n nd i p o (clearObs g).next = some g' →
-          ProgS nd.kind p o → HIe kinds links g' := fun o hs' hpo =>
-        HIe_relTail_same kinds links hwf (clearObs g) g' ⟨aa, h0⟩ n nd i p grp inbox hn hg o hpo hs'
       have tail : ∀ (o : Outcome) (nx : Pid), relTail (clearObs g) n nd i p o nx = some g' →
           (ProgOK nd.kind p o (clearObs g).next nx ∨ ProgE nd.kind p o (clearObs g).next nx) → HIe kinds links g' := by
         intro o nx hs' hpo
@@ -132,74 +163,16 @@ theorem HIe_release (kinds : List Kind) (links : List (Nat × List Tgt)) (hwf : 
         · exact HIe_relTail kinds links hwf (clearObs g) g' ⟨aa, h0⟩ n nd i p grp inbox hn hg o nx hpo hs'
         · exact HIe_relTail_echo kinds links hwf (clearObs g) g' ⟨aa, h0⟩ n nd i p grp inbox hn hg o nx hpo hs'
       cases r with
-      | same =>
-        -- the node hands its tracer a copy of the in packet: as `out` with the same payload
-        apply tail _ _ hs
-        cases hkd : nd.kind with
-        | oneToOne => exact Or.inl (prog_out .oneToOne p _ p.pay hplt (Or.inl rfl))
-        | manyToOne m => exact Or.inl (prog_out_j m p _ p.pay hplt)
-        | oneToMany m => exact prog_many4 m p (clearObs g).next [some p.pay] hplt
-      | sames k =>
-        -- copies of the in packet on the out ports 0..k-1: as `many` with the same payload
-        apply tail _ _ hs
-        cases hkd : nd.kind with
-        | oneToMany m => exact prog_many4 m p (clearObs g).next (List.replicate k (some p.pay)) hplt
-        | oneToOne =>
-          simp only [ExtT7] at hr
-          rw [hk, hkd] at hr
-          rcases hr with hr | hr | ⟨m, hr⟩
-          · cases k with
-            | zero => exact Or.inr (progE_nil .oneToOne p _)
-            | succ k =>
-              have : k = 0 := by omega
-              subst this
-              exact Or.inl (prog_out .oneToOne p _ p.pay hplt (Or.inl rfl))
-          · cases hr
-          · cases hr
-        | manyToOne m' =>
-          simp only [ExtT7] at hr
-          rw [hk, hkd] at hr
-          rcases hr with hr | hr | ⟨m, hr⟩
-          · cases k with
-            | zero => exact Or.inr (progE_nil (.manyToOne m') p _)
-            | succ k =>
-              have : k = 0 := by omega
-              subst this
-              exact Or.inl (prog_out_j m' p _ p.pay hplt)
-          · cases hr
-          · cases hr
-      | mixed vs =>
-        simp only [ExtT7] at hr
-        rw [hk] at hr
-        rcases hr with e | ⟨m, e⟩
-        · cases e
-        · simp only [Option.some.injEq] at e
-          apply tail _ _ hs
-          rw [e]; exact prog_many4 m p (clearObs g).next _ hplt
       | err v => exact tail _ _ hs (Or.inl (prog_err nd.kind p _ v hplt))
-      | out v =>
-        simp only [ExtT7, ExtT6, ExtT5] at hr
-        rw [hk] at hr
-        simp only [Option.some.injEq] at hr
-        apply tail _ _ hs
-        left
-        rcases hr with e | e | ⟨k, e⟩ | ⟨k, e⟩
-        · cases e
-        · exact prog_out nd.kind p _ v hplt (Or.inl e)
-        · exact prog_out nd.kind p _ v hplt (Or.inr ⟨k, e⟩)
-        · rw [e]; exact prog_out_j k p _ v hplt
-      | many vs =>
-        simp only [ExtT7, ExtT6, ExtT5] at hr
-        rw [hk] at hr
-        rcases hr with e | ⟨k, e⟩
-        · cases e
-        · simp only [Option.some.injEq] at e
-          apply tail _ _ hs
-          rw [e]; exact prog_many4 k p (clearObs g).next vs hplt
       | drop => exact tail _ _ hs (Or.inr (progE_nil nd.kind p _))
+      | out v => exact tail _ _ hs (prog_any nd.kind p (clearObs g).next [some v] hplt)
+      | same => exact tail _ _ hs (prog_any nd.kind p (clearObs g).next [some p.pay] hplt)
+      | many vs => exact tail _ _ hs (prog_any nd.kind p (clearObs g).next vs hplt)
+      | sames k => exact tail _ _ hs (prog_any nd.kind p (clearObs g).next (List.replicate k (some p.pay)) hplt)
+      | mixed vs => exact tail _ _ hs (prog_any nd.kind p (clearObs g).next _ hplt)
 
 theorem HIe_ext (kinds : List Kind) (links : List (Nat × List Tgt)) (hwf : GraphWF5 kinds links) (g : G) (e : Ext)
-    (he : ExtT7 kinds e) (h : HIe kinds links g) : HIe kinds links (ext g e) := by
+    (h : HIe kinds links g) : HIe kinds links (ext g e) := by
   cases e with
   | send v => exact HIe_send kinds links hwf g v h
   | sinkAnswer k a =>
@@ -211,17 +184,16 @@ theorem HIe_ext (kinds : List Kind) (links : List (Nat × List Tgt)) (hwf : Grap
     simp only [ext]
     cases hs : release g n r with
     | none => exact h
-    | some g' => exact HIe_release kinds links hwf g g' n r he h hs
+    | some g' => exact HIe_release kinds links hwf g g' n r h hs
 
 theorem HIe_runExt (kinds : List Kind) (links : List (Nat × List Tgt)) (hwf : GraphWF5 kinds links) (es : List Ext) :
-    ∀ (g : G), (∀ e ∈ es, ExtT7 kinds e) → HIe kinds links g → HIe kinds links (runExt g es) := by
+    ∀ (g : G), HIe kinds links g → HIe kinds links (runExt g es) := by
   induction es with
-  | nil => intro g _ h; exact h
+  | nil => intro g h; exact h
   | cons e es ih =>
-    intro g he h
+    intro g h
     simp only [runExt]
-    exact ih _ (fun e' he' => he e' (List.mem_cons_of_mem _ he'))
-      (HIe_ext kinds links hwf g e (he e (by simp)) h)
+    exact ih _ (HIe_ext kinds links hwf g e h)
 
 theorem HIe_init (kinds : List Kind) (links : List (Nat × List Tgt)) (hwf : GraphWF5 kinds links) :
     HIe kinds links (initG kinds links) := ⟨_, HI_init kinds links hwf⟩
